@@ -76,6 +76,9 @@ class AntiSymmetricTensor(SymbolicTensor):
                 upper, lower = lower, upper  # swap
                 if bra_ket_sym is S.NegativeOne:  # add another -1
                     sign_u += 1
+            elif bra_ket_sym is S.NegativeOne and \
+                    list(upper) == list(lower):
+                return S.Zero  # d^{pq}_{pq} = - d^{pq}_{pq}
         # import all quantities to sympy
         name = sympify(name)
         upper, lower = Tuple(*upper), Tuple(*lower)
@@ -223,6 +226,9 @@ class SymmetricTensor(AntiSymmetricTensor):
                 upper, lower = lower, upper  # swap
                 if bra_ket_sym is S.NegativeOne:
                     negative_sign = True
+            elif bra_ket_sym is S.NegativeOne and \
+                    list(upper) == list(lower):
+                return S.Zero  # d^{pq}_{pq} = - d^{pq}_{pq}
         # import all quantities to sympy
         name = sympify(name)
         upper, lower = Tuple(*upper), Tuple(*lower)
